@@ -57,5 +57,39 @@ package cmd
 //@   trustframe
 //@   at call releaseReloadPendingAfterRetirement#1 assert a0 == m.reloadPending && !m.reloading.Load() && !m.reloadActive.Load()
 //@   ensures calls("releaseReloadPendingAfterRetirement") == 1
+// release of the admission flag after a successful reload: immediately when there is no retirement to wait
+// for, otherwise by exactly one waiter that clears it after the retirement signalled completion; a nil
+// flag only closes the muting scope
+//@ func releaseReloadPendingAfterRetirement
+//@   anchorsonly
+//@   dyncalls noeffect
+//@   modifies *
+//@   at return 1 assert flag == nil && calls("endReloadProxyFailureSuppression") == 1 && calls("clearReloadPending") == 0
+//@   at return 2 assert flag != nil && retirementDone == nil && calls("clearReloadPending") == 1
+//@   at call clearReloadPending#1 assert a0 == flag
+//@ func releaseReloadPendingAfterRetirement$1
+//@   anchorsonly
+//@   dyncalls noeffect
+//@   modifies *
+//@   at call clearReloadPending#1 assert a0 == flag
+//@   ensures calls("clearReloadPending") == 1
+
+// the handle a finished reload waits on is taken exactly once (a second taker gets nil)
 //@ func (*reloadManager).takePendingRetirementDone
-//@   trusted
+//@   nonilcheck
+//@   modifies m.pendingRetirementDone
+//@   ensures m != nil ==> result == old(m.pendingRetirementDone) && m.pendingRetirementDone == nil
+//@   ensures m == nil ==> result == nil
+
+// the retirement goroutine: marks the old generation retired, drains, cancels, closes, lets the successor
+// clean up, and signals completion on every path (deferred close of the done channel)
+//@ func (*reloadManager).startControlPlaneRetirement$1
+//@   anchorsonly
+//@   dyncalls noeffect
+//@   modifies *
+//@   at call MarkRetired#1 assert a0 == oldControlPlane && calls("retireControlPlaneConnections") == 0
+//@   at call retireControlPlaneConnections#1 assert unbox(a2, "*control.ControlPlane") == oldControlPlane
+//@   at call retireControlPlaneConnections#1 assert calls("MarkRetired") == 1
+//@   at call ControlPlane).Close#1 assert a0 == oldControlPlane && calls("retireControlPlaneConnections") == 1
+//@   at call RunReloadRetirementCleanup#1 assert a0 == successor && a1 == staleBeforeNs && calls("ControlPlane).Close") == 1
+//@   ensures calls("builtin:close") == 1 && calls("ControlPlane).Close") == 1 && calls("MarkRetired") == 1
